@@ -160,7 +160,16 @@ func (a *FuncAction) Exec(ctx context.Context, bs Bindings, props StepProps) (*E
 		}
 	}
 
-	exe, err := a.F(ctx, bs, props)
+	// The action gets its own (shallow) copy of the bindings, so
+	// code that deletes or overwrites bindings in place changes
+	// neither the caller's map nor, when it then fails or
+	// declines, the permanent bindings.
+	given := bs
+	if bs != nil {
+		given = bs.Copy()
+	}
+
+	exe, err := a.F(ctx, given, props)
 
 	if Exp_PermanentBindings && exe != nil && exe.Bs != nil {
 		for p, v := range permanent {
